@@ -1,5 +1,7 @@
 """C09 - W3C trace-context propagation (api/include/opentelemetry/trace/propagation/http_trace_context.h)."""
 from ..core import Proof
+from .. import refute as R
+from . import common
 
 prop_id = "C09"
 tu_name = "tu_propagation"
@@ -7,33 +9,439 @@ tu_text = '''#include "opentelemetry/trace/propagation/http_trace_context.h"
 #include "opentelemetry/trace/propagation/b3_propagator.h"
 #include "opentelemetry/trace/propagation/jaeger.h"
 '''
-spec_headers = ("spec_hex.h",)
+spec_headers = ("spec_hex.h", "xc_trace_boundary.h")
+force_records = ("nostd::string_view", "trace::SpanContext")
+post_struct_c = common.TRACE_BOUNDARY_C + "\nSpanContext g_extracted;\n"
 pre_c = '''
-size_t g_k; size_t g_j;
-static void xc_havoc_ghosts(void) { size_t a, b; g_k = a; g_j = b; }
+size_t g_k; size_t g_j; size_t g_off; size_t g_off2; size_t g_trim_off; size_t g_trim_len;
+static void xc_havoc_ghosts(void) { size_t a, b, c, d; g_k = a; g_j = b; g_off = c; g_off2 = d; }
 '''
 
 
 def configure(cfg):
-    cfg.value_classes |= {"string_view", "TraceId", "SpanId", "TraceFlags"}
+    common.trace_boundary(cfg)
 
 
 SV_OK = lambda v: ("__CPROVER_requires(%s.length_ <= XC_MAXLEN)\n"
                    "__CPROVER_requires(__CPROVER_is_fresh(%s.data_, %s.length_))\n" % (v, v, v))
 
-contracts = {
+
+# --- HexToBinary: pointwise functional contract with ghost byte index g_j -----------------------
+# pad = number of leading zero bytes; byte q of the converted part comes from hex chars (2q-odd, 2q-odd+1)
+HB_DEFS = """
+#define HB_HS(hex) ((long)(hex).length_)
+#define HB_ODD(hex) (HB_HS(hex) % 2)
+#define HB_PAD(hex, bs) ((long)(bs) - (HB_HS(hex) + 1) / 2)
+#define HB_Q(hex, bs, j) ((long)(j) - HB_PAD(hex, bs))
+#define HB_I(hex, bs, j) (2 * HB_Q(hex, bs, j) - HB_ODD(hex))
+#define HB_EXPECT_AT(hex, bs, buffer, j) \\
+  ((long)(j) < HB_PAD(hex, bs) ? (buffer)[j] == 0 : \\
+   (HB_ODD(hex) && HB_Q(hex, bs, j) == 0) ? (IS_HEX((hex).data_[0]) ==> (buffer)[j] == (uint8_t)HEXVAL((hex).data_[0])) : \\
+   ((IS_HEX((hex).data_[HB_I(hex, bs, j)]) && IS_HEX((hex).data_[HB_I(hex, bs, j) + 1])) ==> \\
+      (buffer)[j] == (uint8_t)((HEXVAL((hex).data_[HB_I(hex, bs, j)]) << 4) | HEXVAL((hex).data_[HB_I(hex, bs, j) + 1]))))
+"""
+pre_c += HB_DEFS
+
+
+# --- SplitString: structural contract, quantifier over fields unrolled (count <= 4) -------------
+SS_DEFS = """
+#define SS_OFF(s, r, j) ((size_t)((r)[j].data_ - (s).data_))
+#define SS_END(s, r, j) (SS_OFF(s, r, j) + (r)[j].length_)
+#define SS_INSIDE(s, r, j) (__CPROVER_same_object((r)[j].data_, (s).data_) && SS_OFF(s, r, j) <= (s).length_ && (r)[j].length_ <= (s).length_ - SS_OFF(s, r, j))
+#define SS_ADJ(s, sep, r, j) ((r)[(j) + 1].data_ == (r)[j].data_ + (r)[j].length_ + 1 && SS_END(s, r, j) < (s).length_ && (s).data_[SS_END(s, r, j)] == (sep))
+#define SS_NOSEP(s, sep, r, j, k) ((SS_OFF(s, r, j) <= (k) && (k) < SS_END(s, r, j)) ==> (s).data_[k] != (sep))
+"""
+pre_c += SS_DEFS
+pre_c += "#define TR_OFF ((size_t)(__CPROVER_return_value.data_ - str.data_))\n"
+SS_FIELDS = "".join(
+    "__CPROVER_%%s(%d < %%s ==> (SS_INSIDE(s, results, %d) && SS_NOSEP(s, separator, results, %d, g_k)))\n" % (j, j, j) for j in range(4))
+SS_ADJS = "".join(
+    "__CPROVER_%%s(%d + 1 < %%s ==> SS_ADJ(s, separator, results, %d))\n" % (j, j) for j in range(3))
+
+def _ss(kind, n):
+    return (SS_FIELDS % tuple(x for _ in range(4) for x in (kind, n))) + (SS_ADJS % tuple(x for _ in range(3) for x in (kind, n)))
+
+
+pre_c += common.ID_MACROS
+B = "trace_parent.data_"
+N = "trace_parent.length_"
+RET = "__CPROVER_return_value"
+
+
+def wf_post(valid, b, n, sc, kind="ensures"):
+    """soundness: a valid result implies the W3C shape of (b, n) (up to hex case) and exactly the encoded values;
+    pointwise in the ghost positions g_off/g_off2 (characters) and g_j (id byte)."""
+    C = "__CPROVER_" + kind
+    return (
+        "%(C)s(%(valid)s ==> (%(n)s >= 55 && %(b)s[2] == '-' && %(b)s[35] == '-' && %(b)s[52] == '-'))\n"
+        "%(C)s(%(valid)s ==> ((g_off < 55 && g_off != 2 && g_off != 35 && g_off != 52) ==> IS_HEX(%(b)s[g_off])))\n"
+        "%(C)s((%(valid)s && g_off == 0 && g_off2 == 1 && g_j == 0) ==> (HEXBYTE(%(b)s[0], %(b)s[1]) != 0xff && "
+        "(HEXBYTE(%(b)s[0], %(b)s[1]) == 0 ? %(n)s == 55 : (%(n)s == 55 || %(b)s[55] == '-'))))\n"
+        "%(C)s((%(valid)s && g_j < 16 && g_off == 3 + 2 * g_j && g_off2 == 4 + 2 * g_j) ==> %(sc)s.trace_id_.rep_[g_j] == HEXBYTE(%(b)s[g_off], %(b)s[g_off2]))\n"
+        "%(C)s((%(valid)s && g_j < 8 && g_off == 36 + 2 * g_j && g_off2 == 37 + 2 * g_j) ==> %(sc)s.span_id_.rep_[g_j] == HEXBYTE(%(b)s[g_off], %(b)s[g_off2]))\n"
+        "%(C)s((%(valid)s && g_off == 53 && g_off2 == 54 && g_j == 0) ==> %(sc)s.trace_flags_.rep_ == HEXBYTE(%(b)s[53], %(b)s[54]))\n"
+        "%(C)s(%(valid)s ==> %(sc)s.is_remote_)\n" % dict(C=C, valid=valid, b=b, n=n, sc=sc))
+
+
+def inject_post(sc, guard="1"):
+    return (
+        "__CPROVER_ensures((%(g)s) ==> (g_set_calls >= 1 && g_set_len[0] == 55 && " + common.key_lit_eq("g_set_key", "0", "traceparent") + "))\n"
+        "__CPROVER_ensures((%(g)s) ==> (g_set_val[0][0] == '0' && g_set_val[0][1] == '0' && g_set_val[0][2] == '-' && g_set_val[0][35] == '-' && g_set_val[0][52] == '-'))\n"
+        "__CPROVER_ensures((%(g)s) ==> (g_k < 32 ==> g_set_val[0][3 + g_k] == LOWER_HEX_DIGIT(NIB_AT(%(sc)s.trace_id_.rep_, g_k))))\n"
+        "__CPROVER_ensures((%(g)s) ==> (g_k < 16 ==> g_set_val[0][36 + g_k] == LOWER_HEX_DIGIT(NIB_AT(%(sc)s.span_id_.rep_, g_k))))\n"
+        "__CPROVER_ensures((%(g)s) ==> (g_set_val[0][53] == LOWER_HEX_DIGIT(HI_NIB(%(sc)s.trace_flags_.rep_)) && g_set_val[0][54] == LOWER_HEX_DIGIT(LO_NIB(%(sc)s.trace_flags_.rep_))))\n"
+        "__CPROVER_ensures((%(g)s) ==> (g_ts_to_header_arg == %(sc)s.trace_state_.id))\n"
+        "__CPROVER_ensures(((%(g)s) && g_ts_to_header_result.len == 0) ==> g_set_calls == 1)\n"
+        "__CPROVER_ensures(((%(g)s) && g_ts_to_header_result.len != 0) ==> (g_set_calls == 2 && " + common.key_lit_eq("g_set_key", "1", "tracestate") +
+        " && g_set_len[1] == g_ts_to_header_result.len && (g_k < g_ts_to_header_result.len ==> g_set_val[1][g_k] == g_ts_to_header_result.data[g_k])))\n"
+    ) % dict(g=guard, sc=sc)
+
+
+INJECT_FRAME = ("__CPROVER_requires(g_set_calls == 0 && g_ts_to_header_result.len <= XC_SET_CAP && __CPROVER_is_fresh(g_ts_to_header_result.data, g_ts_to_header_result.len))\n"
+                "__CPROVER_assigns(g_set_calls, g_ts_to_header_arg, __CPROVER_object_whole(g_set_key), __CPROVER_object_whole(g_set_key_len), __CPROVER_object_whole(g_set_len), __CPROVER_object_whole(g_set_val))\n")
+
+def lower16(n, total):
+    return {"pre": "__CPROVER_requires(__CPROVER_is_fresh(buffer.data_, %d))\n"
+                   "__CPROVER_assigns(__CPROVER_object_upto(buffer.data_, %d))\n"
+                   "__CPROVER_ensures(g_k < %d ==> buffer.data_[g_k] == LOWER_HEX_DIGIT(NIB_AT(self.rep_, g_k)))\n" % (total, total, total),
+            "loops": {1: "__CPROVER_assigns(i, __CPROVER_object_upto(buffer.data_, %d))\n"
+                         "__CPROVER_loop_invariant(0 <= i && i <= %d)\n"
+                         "__CPROVER_loop_invariant((g_k < %d && g_k < 2 * (size_t)i) ==> buffer.data_[g_k] == LOWER_HEX_DIGIT(NIB_AT(self.rep_, g_k)))\n"
+                         "__CPROVER_decreases(%d - i)\n" % (total, n, total, n)}}
+
+ECFTH = "HttpTraceContext_ExtractContextFromTraceHeaders"
+TS_REC = ("(g_ts_from_header_calls == __CPROVER_old(g_ts_from_header_calls) + 1 && %s.trace_state_.id == g_ts_from_header_result && "
+          "g_ts_header_data == %s.data_ && g_ts_header_len == %s.length_)")
+
+contracts = dict(common.SV_CONTRACTS)
+contracts.update({
+    "TraceId_ToLowerBase16": lower16(16, 32),
+    "SpanId_ToLowerBase16": lower16(8, 16),
+    "TraceFlags_ToLowerBase16": {
+        "pre": "__CPROVER_requires(__CPROVER_is_fresh(buffer.data_, 2))\n"
+               "__CPROVER_assigns(__CPROVER_object_upto(buffer.data_, 2))\n"
+               "__CPROVER_ensures(buffer.data_[0] == LOWER_HEX_DIGIT(HI_NIB(self.rep_)) && buffer.data_[1] == LOWER_HEX_DIGIT(LO_NIB(self.rep_)))\n"},
+    "HttpTraceContext_InjectImpl": {"pre": INJECT_FRAME + inject_post("span_context")},
+    "HttpTraceContext_Inject": {"pre": INJECT_FRAME +
+        "__CPROVER_ensures(!SC_VALID(g_in_span_context) ==> g_set_calls == 0)\n" + inject_post("g_in_span_context", "SC_VALID(g_in_span_context)")},
+    ECFTH: {"pre": common.sv_ok("trace_parent") +
+        "__CPROVER_assigns(g_ts_from_header_calls, g_ts_header_data, g_ts_header_len)\n" +
+        wf_post("SC_VALID(%s)" % RET, B, N, RET) +
+        "__CPROVER_ensures(SC_VALID(%s) ==> %s)\n" % (RET, TS_REC % (RET, "trace_state", "trace_state")) +
+        "__CPROVER_ensures(!SC_VALID(%s) ==> SC_IS_INVALID(%s))\n" % (RET, RET)},
+    "HttpTraceContext_ExtractImpl": {
+        "ghost": {("after_decl", "trace_parent"): "g_trim_off = POFF(trace_parent.data_); g_trim_len = trace_parent.length_;"},
+        "pre": "__CPROVER_requires(g_get_calls == 0 && g_get_ret[0].length_ <= XC_MAXLEN && __CPROVER_is_fresh(g_get_ret[0].data_, g_get_ret[0].length_))\n"
+        "__CPROVER_assigns(g_get_calls, __CPROVER_object_whole(g_get_key), __CPROVER_object_whole(g_get_key_len), g_trim_off, g_trim_len, g_ts_from_header_calls, g_ts_header_data, g_ts_header_len)\n"
+        "__CPROVER_ensures(g_get_calls == 2 && " + common.key_lit_eq("g_get_key", "0", "traceparent") + " && " + common.key_lit_eq("g_get_key", "1", "tracestate") + ")\n"
+        # the trimmed window lies inside the header and only whitespace was removed
+        "__CPROVER_ensures(g_trim_off <= g_get_ret[0].length_ && g_trim_len <= g_get_ret[0].length_ - g_trim_off)\n"
+        "__CPROVER_ensures((g_k < g_trim_off || (g_trim_off + g_trim_len <= g_k && g_k < g_get_ret[0].length_)) ==> XC_ISSPACE(g_get_ret[0].data_[g_k]))\n" +
+        wf_post("SC_VALID(%s)" % RET, "(g_get_ret[0].data_ + g_trim_off)", "g_trim_len", RET) +
+        "__CPROVER_ensures(SC_VALID(%s) ==> %s)\n" % (RET, TS_REC % (RET, "g_get_ret[1]", "g_get_ret[1]")) +
+        "__CPROVER_ensures(!SC_VALID(%s) ==> SC_IS_INVALID(%s))\n" % (RET, RET)},
+    "HttpTraceContext_Extract": {
+        "ghost": {("after_decl", "span_context"): "g_extracted = span_context;"},
+        "pre": "__CPROVER_requires(g_get_calls == 0 && g_get_ret[0].length_ <= XC_MAXLEN && __CPROVER_is_fresh(g_get_ret[0].data_, g_get_ret[0].length_))\n"
+        "__CPROVER_requires(__CPROVER_is_fresh(context, sizeof(xc_ctx)) && g_setspan_calls == 0 && g_new_span_calls == 0)\n"
+        "__CPROVER_assigns(g_get_calls, __CPROVER_object_whole(g_get_key), __CPROVER_object_whole(g_get_key_len), g_trim_off, g_trim_len, g_ts_from_header_calls, g_ts_header_data, g_ts_header_len, "
+        "g_extracted, g_new_span_context, g_new_span_calls, g_setspan_calls, g_setspan_ctx_id, g_setspan_span_id)\n"
+        # an invalid context is never installed: the caller's context comes back and SetSpan is not called
+        "__CPROVER_ensures(!SC_VALID(g_extracted) ==> (g_setspan_calls == 0 && __CPROVER_return_value.id == context->id))\n"
+        "__CPROVER_ensures(SC_VALID(g_extracted) ==> (g_setspan_calls == 1 && __CPROVER_return_value.id == g_setspan_result_id && g_setspan_ctx_id == context->id && "
+        "g_setspan_span_id == g_new_span_id && g_new_span_calls == 1))\n"
+        "__CPROVER_ensures(SC_VALID(g_extracted) ==> ((g_j < 16 ==> g_new_span_context.trace_id_.rep_[g_j] == g_extracted.trace_id_.rep_[g_j]) && "
+        "(g_j < 8 ==> g_new_span_context.span_id_.rep_[g_j] == g_extracted.span_id_.rep_[g_j]) && g_new_span_context.trace_flags_.rep_ == g_extracted.trace_flags_.rep_ && "
+        "g_new_span_context.is_remote_ == g_extracted.is_remote_ && g_new_span_context.trace_state_.id == g_extracted.trace_state_.id))\n"
+        "__CPROVER_ensures(context->id == __CPROVER_old(context->id))\n" +
+        wf_post("SC_VALID(g_extracted)", "(g_get_ret[0].data_ + g_trim_off)", "g_trim_len", "g_extracted")},
     "HexToInt": {"pre": "__CPROVER_ensures(__CPROVER_return_value == HEXVAL(c))\n__CPROVER_assigns()\n"},
     "xc_all_of__IsValidHex__l1": {"loops": {1:
         "__CPROVER_assigns(first)\n"
         "__CPROVER_loop_invariant(__CPROVER_same_object(first, last) && __CPROVER_loop_entry(first) <= first && first <= last)\n"
-        "__CPROVER_loop_invariant((g_k < (size_t)(first - __CPROVER_loop_entry(first))) ==> IS_HEX(__CPROVER_loop_entry(first)[g_k]))\n"
+        "__CPROVER_loop_invariant((POFF(__CPROVER_loop_entry(first)) <= g_off && g_off < POFF(first)) ==> IS_HEX(PTR_OBJ_AT(first, g_off)))\n"
+        "__CPROVER_loop_invariant((POFF(__CPROVER_loop_entry(first)) <= g_off2 && g_off2 < POFF(first)) ==> IS_HEX(PTR_OBJ_AT(first, g_off2)))\n"
         "__CPROVER_decreases(last - first)\n"}},
+    "HexToBinary": {
+        "pragmas": ['disable "undefined-shift"'],
+        "pre": SV_OK("hex") +
+        "__CPROVER_requires(buffer_size <= 16 && __CPROVER_is_fresh(buffer, buffer_size))\n"
+        "__CPROVER_assigns(__CPROVER_object_whole(buffer))\n"
+        "__CPROVER_ensures(__CPROVER_return_value == (hex.length_ <= 2 * buffer_size))\n"
+        "__CPROVER_ensures(!__CPROVER_return_value ==> (g_j < buffer_size ==> buffer[g_j] == 0))\n"
+        "__CPROVER_ensures(__CPROVER_return_value ==> (g_j < buffer_size ==> HB_EXPECT_AT(hex, buffer_size, buffer, g_j)))\n",
+        "loops": {1:
+        "__CPROVER_assigns(i, buffer_pos, __CPROVER_object_whole(buffer))\n"
+        "__CPROVER_loop_invariant(0 <= i && i <= hex_size && i % 2 == hex_size % 2)\n"
+        "__CPROVER_loop_invariant(buffer_pos == (long)buffer_size - (hex_size + 1) / 2 + (i + hex_size % 2) / 2)\n"
+        "__CPROVER_loop_invariant((g_j < buffer_size && (long)g_j < buffer_pos) ==> HB_EXPECT_AT(hex, buffer_size, buffer, g_j))\n"
+        "__CPROVER_loop_invariant((g_j < buffer_size && (long)g_j >= buffer_pos) ==> buffer[g_j] == 0)\n"
+        "__CPROVER_decreases(hex_size - i)\n"}},
+    "SplitString": {
+        "pre": SV_OK("s") +
+        "__CPROVER_requires(count <= 4 && __CPROVER_is_fresh(results, count * sizeof(string_view)))\n"
+        "__CPROVER_assigns(__CPROVER_object_whole(results))\n"
+        "__CPROVER_ensures(__CPROVER_return_value <= count && (count > 0 ==> __CPROVER_return_value >= 1))\n"
+        "__CPROVER_ensures(count > 0 ==> __CPROVER_pointer_equals(results[0].data_, s.data_))\n" + "".join(
+            ("__CPROVER_ensures(%(j)d < __CPROVER_return_value ==> (SS_INSIDE(s, results, %(j)d) && SS_NOSEP(s, separator, results, %(j)d, g_k)))\n" +
+             ("__CPROVER_ensures(%(j)d + 1 < __CPROVER_return_value ==> (SS_END(s, results, %(j)d) < s.length_ && s.data_[SS_END(s, results, %(j)d)] == separator))\n"
+              "__CPROVER_ensures(%(j)d + 1 < __CPROVER_return_value ==> __CPROVER_pointer_equals(results[%(j)d + 1].data_, results[%(j)d].data_ + results[%(j)d].length_ + 1))\n"
+              if j < 3 else "")) % {"j": j} for j in range(4)) +
+        "__CPROVER_ensures(count > 0 ==> (SS_END(s, results, __CPROVER_return_value - 1) == s.length_ || "
+        "(__CPROVER_return_value == count && s.data_[SS_END(s, results, __CPROVER_return_value - 1)] == separator)))\n",
+        "loops": {1:
+        "__CPROVER_assigns(i, filled, token_start, __CPROVER_object_whole(results))\n"
+        "__CPROVER_loop_invariant(i <= s.length_ && filled < count && token_start <= i)\n"
+        "__CPROVER_loop_invariant(filled == 0 ==> token_start == 0)\n"
+        "__CPROVER_loop_invariant(filled > 0 ==> (results[0].data_ == s.data_ && token_start == SS_END(s, results, filled - 1) + 1 && s.data_[token_start - 1] == separator))\n" +
+        _ss("loop_invariant", "filled") +
+        "__CPROVER_loop_invariant((token_start <= g_k && g_k < i) ==> s.data_[g_k] != separator)\n"
+        "__CPROVER_decreases(s.length_ - i)\n"}},
+    "StringUtil_Trim_3": {
+        "pre": SV_OK("str") +
+        "__CPROVER_requires(left <= right && right < str.length_)\n"
+        "__CPROVER_assigns()\n"
+        "__CPROVER_ensures(__CPROVER_pointer_in_range_dfcc(str.data_, __CPROVER_return_value.data_, str.data_ + str.length_))\n"
+        "__CPROVER_ensures(TR_OFF >= left && TR_OFF <= right + 1 && __CPROVER_return_value.length_ <= right + 1 - TR_OFF)\n"
+        "__CPROVER_ensures(__CPROVER_return_value.length_ > 0 ==> (!XC_ISSPACE(str.data_[TR_OFF]) && !XC_ISSPACE(str.data_[TR_OFF + __CPROVER_return_value.length_ - 1])))\n"
+        "__CPROVER_ensures((left <= g_k && g_k < TR_OFF) ==> XC_ISSPACE(str.data_[g_k]))\n"
+        "__CPROVER_ensures((TR_OFF + __CPROVER_return_value.length_ <= g_k && g_k <= right) ==> XC_ISSPACE(str.data_[g_k]))\n",
+        "loops": {
+            1: "__CPROVER_assigns(left)\n"
+               "__CPROVER_loop_invariant(__CPROVER_loop_entry(left) <= left && left <= right + 1)\n"
+               "__CPROVER_loop_invariant((__CPROVER_loop_entry(left) <= g_k && g_k < left) ==> XC_ISSPACE(str.data_[g_k]))\n"
+               "__CPROVER_decreases(right + 1 - left)\n",
+            2: "__CPROVER_assigns(right)\n"
+               "__CPROVER_loop_invariant(right <= __CPROVER_loop_entry(right) && left <= right + 1)\n"
+               "__CPROVER_loop_invariant(left <= __CPROVER_loop_entry(right) ==> !XC_ISSPACE(str.data_[left]))\n"
+               "__CPROVER_loop_invariant((right < g_k && g_k <= __CPROVER_loop_entry(right)) ==> XC_ISSPACE(str.data_[g_k]))\n"
+               "__CPROVER_decreases(right)\n"}},
+    "StringUtil_Trim_1": {
+        "pre": SV_OK("str") +
+        "__CPROVER_assigns()\n"
+        "__CPROVER_ensures(__CPROVER_pointer_in_range_dfcc(str.data_, __CPROVER_return_value.data_, str.data_ + str.length_))\n"
+        "__CPROVER_ensures(TR_OFF <= str.length_ && __CPROVER_return_value.length_ <= str.length_ - TR_OFF)\n"
+        "__CPROVER_ensures(__CPROVER_return_value.length_ > 0 ==> (!XC_ISSPACE(str.data_[TR_OFF]) && !XC_ISSPACE(str.data_[TR_OFF + __CPROVER_return_value.length_ - 1])))\n"
+        "__CPROVER_ensures((g_k < TR_OFF) ==> XC_ISSPACE(str.data_[g_k]))\n"
+        "__CPROVER_ensures((TR_OFF + __CPROVER_return_value.length_ <= g_k && g_k < str.length_) ==> XC_ISSPACE(str.data_[g_k]))\n"},
     "IsValidHex": {"pre": SV_OK("s") +
         "__CPROVER_assigns()\n"
-        "__CPROVER_ensures(__CPROVER_return_value ==> (g_k < s.length_ ==> IS_HEX(s.data_[g_k])))\n"},
-}
+        "__CPROVER_ensures(__CPROVER_return_value ==> (SV_COVERS(s, g_off) ==> IS_HEX(SV_OBJ_AT(s, g_off))))\n"
+        "__CPROVER_ensures(__CPROVER_return_value ==> (SV_COVERS(s, g_off2) ==> IS_HEX(SV_OBJ_AT(s, g_off2))))\n"},
+})
 
 proofs = [
     Proof("HexToInt", [("detail::HexToInt", 1)], enforce="HexToInt"),
+    Proof("HexToBinary", [("detail::HexToBinary", 3)], enforce="HexToBinary", replace=["HexToInt"]),
+    Proof("SplitString", [("detail::SplitString", 4)], enforce="SplitString"),
+    Proof("Trim3", [("StringUtil::Trim", 3)], enforce="StringUtil_Trim_3"),
+    Proof("Trim1", [("StringUtil::Trim", 1)], enforce="StringUtil_Trim_1", replace=["StringUtil_Trim_3"]),
+    Proof("sv_eq", [("nostd::operator==", 2, "bool (nostd::string_view, nostd::string_view)")], enforce=common.SV_EQ),
+    Proof("TraceId_ToLowerBase16", [("TraceId::ToLowerBase16", 1)], enforce="TraceId_ToLowerBase16"),
+    Proof("SpanId_ToLowerBase16", [("SpanId::ToLowerBase16", 1)], enforce="SpanId_ToLowerBase16"),
+    Proof("TraceFlags_ToLowerBase16", [("TraceFlags::ToLowerBase16", 1)], enforce="TraceFlags_ToLowerBase16"),
+    Proof("InjectImpl", [("HttpTraceContext::InjectImpl", 2)], enforce="HttpTraceContext_InjectImpl",
+          replace=["TraceId_ToLowerBase16", "SpanId_ToLowerBase16", "TraceFlags_ToLowerBase16"]),
+    Proof("Inject", [("HttpTraceContext::Inject", 2)], enforce="HttpTraceContext_Inject", replace=["HttpTraceContext_InjectImpl"]),
+    Proof("ExtractContextFromTraceHeaders", [("HttpTraceContext::ExtractContextFromTraceHeaders", 2)], enforce=ECFTH,
+          replace=["SplitString", "IsValidHex", "HexToBinary"]),
+    Proof("ExtractImpl", [("HttpTraceContext::ExtractImpl", 1)], enforce="HttpTraceContext_ExtractImpl",
+          replace=[ECFTH, "StringUtil_Trim_1", common.SV_EQ]),
+    Proof("Extract", [("HttpTraceContext::Extract", 2)], enforce="HttpTraceContext_Extract", replace=["HttpTraceContext_ExtractImpl"]),
     Proof("IsValidHex", [("detail::IsValidHex", 1)], enforce="IsValidHex", replace=["HexToInt"]),
 ]
+
+
+# ---------------------------------------------------------------------------------------------
+# completeness: every well-formed header yields a valid context with exactly the encoded values.
+# Under WF the SplitString loop returns at index 55 at the latest and the hex loops run 2/32/16/2 times,
+# so --unwind 57 with unwinding assertions is complete for every header length (not a bounded stand-in).
+WF_C = r"""
+static int xc_hexval(char c) { return HEXVAL(c); }
+/* oracle written from the property statement (W3C level-1 shape up to hex case) */
+static bool xc_wf_traceparent(const char *b, unsigned long n, uint8_t *tid, uint8_t *sid, uint8_t *fl)
+{
+  if (n < 55) return false;
+  if (b[2] != '-' || b[35] != '-' || b[52] != '-') return false;
+  for (unsigned i = 0; i < 55; i++)
+    if (i != 2 && i != 35 && i != 52 && !IS_HEX(b[i])) return false;
+  int ver = xc_hexval(b[0]) * 16 + xc_hexval(b[1]);
+  if (ver == 0xff) return false;
+  if (ver == 0 ? n != 55 : !(n == 55 || b[55] == '-')) return false;
+  bool tz = true, sz = true;
+  for (unsigned i = 0; i < 16; i++) { tid[i] = (uint8_t)(xc_hexval(b[3 + 2 * i]) * 16 + xc_hexval(b[4 + 2 * i])); tz = tz && tid[i] == 0; }
+  for (unsigned i = 0; i < 8; i++) { sid[i] = (uint8_t)(xc_hexval(b[36 + 2 * i]) * 16 + xc_hexval(b[37 + 2 * i])); sz = sz && sid[i] == 0; }
+  *fl = (uint8_t)(xc_hexval(b[53]) * 16 + xc_hexval(b[54]));
+  return !tz && !sz;
+}
+"""
+
+H_COMPLETE = WF_C + r"""
+void h_Extract_completeness(void)
+{
+  xc_havoc_ghosts();
+  unsigned long n; __CPROVER_assume(n >= 55 && n <= XC_MAXLEN);
+  char *b = malloc(n); __CPROVER_assume(b != NULL);
+  uint8_t tid[16], sid[8], fl;
+  __CPROVER_assume(xc_wf_traceparent(b, n, tid, sid, &fl));
+  string_view tp; tp.data_ = b; tp.length_ = n;
+  string_view ts; ts.data_ = b; ts.length_ = 0;
+  SpanContext sc = HttpTraceContext_ExtractContextFromTraceHeaders(tp, ts);
+  __CPROVER_assert(SC_VALID(sc), "COMPLETE: well-formed traceparent yields a valid span context");
+  __CPROVER_assert(g_j < 16 ==> sc.trace_id_.rep_[g_j] == tid[g_j], "COMPLETE: trace id equals the encoded one");
+  __CPROVER_assert(g_j < 8 ==> sc.span_id_.rep_[g_j] == sid[g_j], "COMPLETE: span id equals the encoded one");
+  __CPROVER_assert(sc.trace_flags_.rep_ == fl && sc.is_remote_, "COMPLETE: flags byte equals the encoded one, context is remote");
+  __CPROVER_assert(0, "XC_CANARY end of harness reachable");
+}
+"""
+
+# round trip: the traceparent that Inject is *proved* to write (HttpTraceContext_Inject's postcondition, which holds for
+# every ghost position g_k, i.e. for all 55 bytes) is fed to the real extraction code.
+H_ROUNDTRIP = r"""
+void h_RoundTrip(void)
+{
+  xc_havoc_ghosts();
+  SpanContext in;
+  __CPROVER_assume(SC_VALID(in));
+  char O[55];
+  /* = the proved postcondition of Inject, instantiated at every position */
+  __CPROVER_assume(O[0] == '0' && O[1] == '0' && O[2] == '-' && O[35] == '-' && O[52] == '-');
+  for (unsigned k = 0; k < 32; k++) __CPROVER_assume(O[3 + k] == LOWER_HEX_DIGIT(NIB_AT(in.trace_id_.rep_, k)));
+  for (unsigned k = 0; k < 16; k++) __CPROVER_assume(O[36 + k] == LOWER_HEX_DIGIT(NIB_AT(in.span_id_.rep_, k)));
+  __CPROVER_assume(O[53] == LOWER_HEX_DIGIT(HI_NIB(in.trace_flags_.rep_)) && O[54] == LOWER_HEX_DIGIT(LO_NIB(in.trace_flags_.rep_)));
+  g_get_ret[0].data_ = O; g_get_ret[0].length_ = 55;
+  g_get_ret[1].data_ = ""; g_get_ret[1].length_ = 0;
+  xc_carrier carrier;
+  SpanContext out = HttpTraceContext_ExtractImpl(&carrier);
+  __CPROVER_assert(SC_VALID(out) && out.is_remote_, "ROUNDTRIP: extracted context is valid and remote");
+  __CPROVER_assert(g_j < 16 ==> out.trace_id_.rep_[g_j] == in.trace_id_.rep_[g_j], "ROUNDTRIP: same trace id");
+  __CPROVER_assert(g_j < 8 ==> out.span_id_.rep_[g_j] == in.span_id_.rep_[g_j], "ROUNDTRIP: same span id");
+  __CPROVER_assert(out.trace_flags_.rep_ == in.trace_flags_.rep_, "ROUNDTRIP: same flags byte");
+  __CPROVER_assert(0, "XC_CANARY end of harness reachable");
+}
+"""
+
+proofs += [
+    Proof("Extract_completeness", [("HttpTraceContext::ExtractContextFromTraceHeaders", 2)], harness=H_COMPLETE, unwind=57,
+          loop_contracts=False, complete_unwind_note="under the well-formedness assumption every loop ends within 56 iterations; unwinding assertions prove it",
+          property_level=("h_Extract_completeness", ".*unwind.*"), timeout=1500,
+          desc="completeness: WF header => valid context with the encoded ids/flags (any length up to 65536)"),
+    Proof("RoundTrip", [("HttpTraceContext::ExtractImpl", 1)], harness=H_ROUNDTRIP, unwind=57,
+          loop_contracts=False, complete_unwind_note="all loops have constant bounds (16/8 id bytes, 55 header bytes)",
+          timeout=1500, desc="the header Inject is proved to write, fed to the real extraction, gives back the same ids and flags byte, "
+          "for all 2^128 x 2^64 x 2^8 valid contexts; composition with Inject's contract is by instantiating its postcondition at all 55 positions"),
+]
+
+# ---------------------------------------------------------------------------------------------
+# refute mode + native replay
+XC_R = 58
+H_REFUTE_EXTRACT = WF_C + r"""
+char cex_hdr[%(R)d]; unsigned long cex_len;
+void h_refute_extract(void)
+{
+  xc_havoc_ghosts();
+  unsigned long n; __CPROVER_assume(n <= %(R)d);
+  char hdr[%(R)d];
+  for (unsigned i = 0; i < %(R)d; i++) cex_hdr[i] = hdr[i];
+  cex_len = n;
+  g_get_ret[0].data_ = hdr; g_get_ret[0].length_ = n;
+  g_get_ret[1].data_ = hdr; g_get_ret[1].length_ = 0;
+  HttpTraceContext self; xc_carrier carrier; xc_ctx ctx; ctx.id = 5; g_setspan_result_id = 9;
+  xc_ctx out = HttpTraceContext_Extract(&self, &carrier, &ctx);
+  SpanContext sc = g_new_span_context;
+  unsigned long a = 0, e = n;
+  while (a < e && XC_ISSPACE(hdr[a])) a++;
+  while (e > a && XC_ISSPACE(hdr[e - 1])) e--;
+  uint8_t tid[16], sid[8], fl = 0;
+  bool wf = xc_wf_traceparent(hdr + a, e - a, tid, sid, &fl);
+  bool valid = SC_VALID(sc);
+  __CPROVER_assert(valid == wf, "REFUTE: valid result iff well-formed header");
+  if (valid && wf)
+  {
+    for (unsigned i = 0; i < 16; i++) __CPROVER_assert(sc.trace_id_.rep_[i] == tid[i], "REFUTE: trace id");
+    for (unsigned i = 0; i < 8; i++) __CPROVER_assert(sc.span_id_.rep_[i] == sid[i], "REFUTE: span id");
+    __CPROVER_assert(sc.trace_flags_.rep_ == fl && sc.is_remote_, "REFUTE: flags/remote");
+    __CPROVER_assert(out.id == 9 && g_setspan_calls == 1, "REFUTE: valid context installed");
+  }
+  if (!valid) __CPROVER_assert(out.id == 5 && g_setspan_calls == 0, "REFUTE: caller's context returned unchanged");
+}
+""" % {"R": XC_R}
+
+H_REFUTE_INJECT = r"""
+uint8_t cex_tid[16]; uint8_t cex_sid[8]; uint8_t cex_flags;
+void h_refute_inject(void)
+{
+  xc_havoc_ghosts();
+  SpanContext in; g_in_span_context = in;
+  for (unsigned i = 0; i < 16; i++) cex_tid[i] = in.trace_id_.rep_[i];
+  for (unsigned i = 0; i < 8; i++) cex_sid[i] = in.span_id_.rep_[i];
+  cex_flags = in.trace_flags_.rep_;
+  g_ts_to_header_result.len = 0; g_ts_to_header_result.data = "";
+  HttpTraceContext self; xc_carrier carrier; xc_ctx ctx; ctx.id = 3;
+  HttpTraceContext_Inject(&self, &carrier, &ctx);
+  if (!SC_VALID(in)) { __CPROVER_assert(g_set_calls == 0, "REFUTE: invalid context never injected"); return; }
+  __CPROVER_assert(g_set_calls == 1 && g_set_len[0] == 55, "REFUTE: one 55-byte header");
+  __CPROVER_assert(g_set_val[0][0] == '0' && g_set_val[0][1] == '0' && g_set_val[0][2] == '-' && g_set_val[0][35] == '-' && g_set_val[0][52] == '-', "REFUTE: 00- and dashes");
+  for (unsigned k = 0; k < 32; k++) __CPROVER_assert(g_set_val[0][3 + k] == LOWER_HEX_DIGIT(NIB_AT(in.trace_id_.rep_, k)), "REFUTE: trace id digits");
+  for (unsigned k = 0; k < 16; k++) __CPROVER_assert(g_set_val[0][36 + k] == LOWER_HEX_DIGIT(NIB_AT(in.span_id_.rep_, k)), "REFUTE: span id digits");
+  __CPROVER_assert(g_set_val[0][53] == LOWER_HEX_DIGIT(HI_NIB(in.trace_flags_.rep_)) && g_set_val[0][54] == LOWER_HEX_DIGIT(LO_NIB(in.trace_flags_.rep_)), "REFUTE: flags digits");
+}
+"""
+
+DRIVER = ("c09_native", ["c09_native.cc"])
+
+
+def _hex(bs):
+    return "".join("%02x" % (b & 0xff) for b in bs)
+
+
+def refute_extract(mod, proof, violations, ix, workdir, seed):
+    import sys
+    me = sys.modules[__name__]
+    vals = R.bounded_cex(me, "refute_extract", [("HttpTraceContext::Extract", 2)], H_REFUTE_EXTRACT, ix,
+                         workdir, unwind=XC_R + 2, timeout=1200)
+    if not vals:
+        return None
+    n = R.to_int(vals.get("cex_len")) or 0
+    hdr = R.array_from(vals, "cex_hdr", XC_R)[:n]
+    r = R.native_check(DRIVER[0], DRIVER[1], ["extract", _hex(hdr)])
+    r["input"] = {"traceparent_bytes_hex": _hex(hdr), "failed_assertion": vals.get("__failed__")}
+    return r
+
+
+def refute_inject(mod, proof, violations, ix, workdir, seed):
+    import sys
+    me = sys.modules[__name__]
+    vals = R.bounded_cex(me, "refute_inject", [("HttpTraceContext::Inject", 2)], H_REFUTE_INJECT, ix, workdir, unwind=65, timeout=900)
+    if not vals:
+        return None
+    tid = R.array_from(vals, "cex_tid", 16)
+    sid = R.array_from(vals, "cex_sid", 8)
+    fl = R.to_int(vals.get("cex_flags")) or 0
+    r = R.native_check(DRIVER[0], DRIVER[1], ["inject", _hex(tid), _hex(sid), "%02x" % fl])
+    r["input"] = {"trace_id": _hex(tid), "span_id": _hex(sid), "flags": "%02x" % fl, "failed_assertion": vals.get("__failed__")}
+    return r
+
+
+def refute_flags(mod, proof, violations, ix, workdir, seed):
+    vals = R.leaf_trace(workdir, proof.name, violations[0]["obligation"])
+    if not vals:
+        return None
+    b = None
+    for k, v in vals.items():
+        if k.endswith("xc_a_self.rep_") or k == "self.rep_":
+            b = R.to_int(v)
+    if b is None:
+        return None
+    r = R.native_check(DRIVER[0], DRIVER[1], ["flags", b])
+    r["input"] = {"flags_byte": b}
+    return r
+
+
+refuters = {"TraceFlags_ToLowerBase16": refute_flags}
+for _n in ("TraceId_ToLowerBase16", "SpanId_ToLowerBase16", "InjectImpl", "Inject"):
+    refuters[_n] = refute_inject
+for _n in ("HexToInt", "IsValidHex", "HexToBinary", "SplitString", "Trim3", "Trim1", "sv_eq", "ExtractContextFromTraceHeaders",
+           "ExtractImpl", "Extract", "Extract_completeness"):
+    refuters[_n] = refute_extract
+refuters["RoundTrip"] = refute_inject
